@@ -93,6 +93,17 @@ Theorem C19_progress_possible : forall (P : Type) (plen sum : P -> N) (g : cfg P
 Proof. exact Proof.C19.progress_possible. Qed.
 Print Assumptions C19_progress_possible.
 
+(* executable form used on observed runs: the oracle C19_check (monotone receive log, verified
+   set = initial + received, success => cached file = blob, nothing accepted from a corrupting
+   peer that sent no blob piece) holds on the observations of every run of the model *)
+Theorem C19_check_sound : forall (P : Type) (plen sum : P -> N) (g : cfg P) (peqb : P -> P -> bool) ps ls,
+  sums_ok P sum g -> (forall a b, peqb a b = true <-> a = b) ->
+  Forall (cf P plen sum g) (payloads P ls) ->
+  C19_check P peqb g (payloads P ls) (run_log P plen sum g (init P g ps) ls)
+            (observe P g (run P plen sum g (init P g ps) ls) ps) = true.
+Proof. exact Proof.C19.check_sound. Qed.
+Print Assumptions C19_check_sound.
+
 (* the collision hypothesis is necessary: with a checksum that collides on a payload a corrupting
    peer sends, an agent completes with other bytes (CRC-32 is such a checksum: harness seed
    `seed-crc-collision` runs this on the real code) *)
